@@ -161,6 +161,24 @@ def entropy {X : Type} {b : Type} {S : Type → Type} (ax : Ax) {k : Nat} [Red a
 /-- `scipy.stats.rankdata(x, "dense").astype(np.int64)`: one plus the number of distinct smaller values -/
 def rankdata_dense {b : Type} {n : Nat} [LT b] [DecidableRel (α := b) (· < ·)] [DecidableEq b] (x : A1 n b) : A1 n Nat :=
   ⟨fun i => rankOf (List.ofFn x.v) (x.v i)⟩
+/-- `x[:, mask]`: the columns of `x` selected by a boolean mask (their number is not known statically, so the selection is kept
+symbolic) and `np.sum(x[:, mask], axis=1)` -/
+structure Cols (m n : Nat) (b : Type) where
+  v : Fin m → Fin n → b
+  keep : Fin n → Bool
+def take_cols {b : Type} {m n : Nat} (x : A2 m n b) (mask : A1 n Bool) : Cols m n b := ⟨x.v, mask.v⟩
+def sum_kept {b : Type} {m n : Nat} [Add b] [OfNat b 0] (x : Cols m n b) : A1 m b :=
+  ⟨fun i => sumFin fun j => if x.keep j then x.v i j else 0⟩
+/-- `c in arr` -/
+def contains {b : Type} {n : Nat} [DecidableEq b] (arr : A1 n b) (c : A0 b) : Bool := anyFin fun j => decide (arr.v j = c.v)
+/-- `if cond: x = e1 else: x = e2` where one branch may be a scalar that later broadcasts against the other -/
+class IteB (X Y : Type) (Z : outParam Type) where
+  ite : Bool → X → Y → Z
+instance (priority := low) {X : Type} : IteB X X X := ⟨fun c x y => if c then x else y⟩
+instance {b : Type} {n : Nat} : IteB (A1 n b) (A0 b) (A1 n b) := ⟨fun c x y => if c then x else ⟨fun _ => y.v⟩⟩
+instance {b : Type} {n : Nat} : IteB (A0 b) (A1 n b) (A1 n b) := ⟨fun c x y => if c then ⟨fun _ => x.v⟩ else y⟩
+def ite {X Y Z : Type} [IteB X Y Z] (c : Bool) (x : X) (y : Y) : Z := IteB.ite c x y
+
 /-- `np.tile(x, (k, 1))`: `k` copies of the row `x` -/
 def tile {b c : Type} {k n : Nat} (x : A1 n b) (_k : Dim k c) : A2 k n b := ⟨fun _ j => x.v j⟩
 /-- `out = np.empty((m, k)); for idx, row in enumerate(X): out[idx] = f(row)` -/
